@@ -317,7 +317,7 @@ KINDS = ["protocol", "sync-endpoint", "async-endpoint-mem", "sync-udp-client", "
 
 
 def plan(tier: str, seed: int) -> list[dict]:
-    n = 3 if tier == "quick" else 100
+    n = 3 if tier == "quick" else 400
     return [{"seed": seed * 1000 + k, "iters": n} for k in range(16)]
 
 
